@@ -151,6 +151,21 @@ pub fn run(ctx: &Ctx) -> i32 {
     );
     if let Some(p) = &ctx.replay {
         let Some(v) = check::read_replay(p) else { rep.inconclusive.push("unreadable replay file".into()); return rep.finish() };
+        let saved = v["source"].as_str().unwrap_or("");
+        if let Some((head, rest)) = saved.split_once("\n// full\n") {
+            if let (Some(tn), Some((a, b))) = (head.strip_prefix("// trait: "), rest.split_once("\n// other\n")) {
+                if let Some(t) = ALL_TRAITS.iter().copied().find(|t| t.name() == tn.trim()) {
+                    rep.evaluations = 1;
+                    let (ea, eb) = (engine::expand_src(a), engine::expand_src(b));
+                    if let (Ok(x), Ok(y)) = (items_of(&ea, t), items_of(&eb, t)) {
+                        if x != y {
+                            rep.violations.push(Failure { msg: format!("the impl of {} still differs between the two saved requests", t.name()), dna: check::dna_of(&v), variant: "replay".into(), source: saved.to_string(), unit_body: None });
+                        }
+                    }
+                    return rep.finish();
+                }
+            }
+        }
         let r = eval(&check::dna_of(&v));
         rep.evaluations = 1;
         if let Err(m) = r.verdict {
@@ -185,7 +200,7 @@ pub fn run(ctx: &Ctx) -> i32 {
                 msg: r2.verdict.err().unwrap_or_else(|| "impl depends on other traits".into()),
                 dna: best,
                 variant: "pair".into(),
-                source: format!("// full\n{}\n// other\n{}", r2.full, r2.other),
+                source: format!("// trait: {}\n// full\n{}\n// other\n{}", r2.t.name(), r2.full, r2.other),
                 unit_body: None,
             });
             if rep.violations.len() >= 10 {
